@@ -11,6 +11,10 @@ from props.C03_grid import within, ABS_ROUND, span, tiled_area
 MOD = 'props.C01_georef'
 
 
+def B(x):
+    return bool(x) if isinstance(x, SymBool) else x
+
+
 class Mosaic(Harness):
     """(a) affected tiles -> mosaic: the ground position of the pixel at which tile i is pasted,
     implied by the mosaic bbox, equals the tile's own ground rectangle"""
@@ -369,6 +373,86 @@ class TransformedInfoQuery(Harness):
         return AND(ok, ux - gx <= px, gx - ux <= px, uy - gy <= py, gy - uy <= py)
 
 
+class RescaledTile(Harness):
+    """upscale_tiles / downscale_tiles: a tile built from the neighbouring level.  The list of sources handed to the mosaic
+    (TiledImage) is aligned with the source-tile grid -- entry i is the stored tile of the i-th affected address or None when
+    that tile is missing -- for every tile address of the level and every subset of missing source tiles.  (Placement of the
+    i-th entry inside the mosaic is the Mosaic obligation.)"""
+    modules = ['mapproxy.grid', 'mapproxy.cache.tile']
+    functions = ['TileManager._scaled_tile', 'TileGrid.get_affected_level_tiles', 'TileGrid.tile_bbox']
+
+    @classmethod
+    def build(cls, L, cfg):
+        g = L.mods['mapproxy.grid']
+        return dict(g=g, t=L.mods['mapproxy.cache.tile'], G=common.make_grid(g, cfg['grid']))
+
+    @classmethod
+    def inputs(cls, ctx, cfg):
+        G = ctx['G']
+        gs = G.grid_sizes[cfg['level']]
+        x, y = int_var('x'), int_var('y')
+        assume(AND(x >= 0, y >= 0, x < gs[0], y < gs[1]))
+        return dict(x=x, y=y, missing=[bool_var('missing%d' % k) for k in range(cfg.get('slots', 6))])
+
+    @classmethod
+    def native_inputs(cls, cex):
+        return dict(x=int(cex['x']), y=int(cex['y']), missing=[bool(v) for v in cex['missing']])
+
+    @classmethod
+    def prop(cls, ctx, cfg, x, y, missing):
+        import types
+        t, G = ctx['t'], ctx['G']
+        level = cfg['level']
+        stop = level + cfg['dir'] * 3
+        seen = {}
+        real_affected = G.get_affected_level_tiles
+
+        def affected(bbox, lvl):
+            bb, grid_size, coords = real_affected(bbox, lvl)
+            coords = list(coords)
+            seen.update(bbox=bb, grid=grid_size, coords=coords)
+            return bb, grid_size, iter(coords)
+        mgr = t.TileManager.__new__(t.TileManager)
+        mgr.grid = types.SimpleNamespace(tile_bbox=G.tile_bbox, get_affected_level_tiles=affected, srs=G.srs, tile_size=G.tile_size)
+        mgr.image_opts = None
+        mgr.cache_rescaled_tiles = False
+        gone = lambda i: (B(missing[i]) if i < len(missing) else False)   # noqa
+
+        def load(tiles, rescale_till_zoom=None, rescaled_tiles=None):
+            for i, tl in enumerate(tiles):
+                if tl.coord is None:
+                    continue
+                tl.source = t.RESCALE_TILE_MISSING if gone(i) else types.SimpleNamespace(stored_at=tl.coord)
+            return tiles
+        mgr._load_tile_coords = load
+        got = {}
+
+        class TiledImage(object):
+            def __init__(self, tiles, tile_grid, tile_size, src_bbox, src_srs):
+                got.update(tiles=list(tiles), grid=tile_grid, bbox=src_bbox)
+
+            def transform(self, *a):
+                return 'rescaled'
+        t.__dict__['TiledImage'] = TiledImage
+        tile = t.Tile((x, y, level))
+        out = mgr._scaled_tile(tile, stop, {})
+        coords = seen.get('coords')
+        if coords is None:
+            return False
+        everything_missing = all(c is None or gone(i) for i, c in enumerate(coords))
+        if not got:
+            # nothing to build from: the tile stays marked missing
+            return AND(everything_missing, out.source is t.RESCALE_TILE_MISSING)
+        ok = AND(not everything_missing, len(got['tiles']) == len(coords), got['grid'] == seen['grid'], out.source == 'rescaled')
+        for i, c in enumerate(coords[:len(got['tiles'])]):
+            src = got['tiles'][i]
+            if c is None or gone(i):
+                ok = AND(ok, src is None)
+            else:
+                ok = AND(ok, src is not None and getattr(src, 'stored_at', None) == c)
+        return ok
+
+
 class AxisOrder(Harness):
     """WMS 1.3.0 axis order: what goes out to a 1.3.0 upstream (GetMap and GetFeatureInfo) carries the rectangle in the axis
     order of its CRS (north/east CRS: miny,minx,maxy,maxx), what comes in from a 1.3.0 client is switched to x/y order
@@ -480,6 +564,12 @@ def obligations(tier, seed):
         specs.append(spec(MOD, 'TransformedInfoQuery', 'feature-info-other-srs/%dx%d/pixel%sx%s/affine%s' % (c['size'][0], c['size'][1], c['pixel'][0], c['pixel'][1], c['affine'][:2]), cfg=c, cost=5))
     for code in ('EPSG:4326', 'EPSG:3857', 'EPSG:31467', 'CRS:84') + (('EPSG:25832', 'EPSG:4258') if tier == 'thorough' else ()):
         specs.append(spec(MOD, 'AxisOrder', 'wms130-axis-order/%s' % code, cfg=dict(srs=code), cost=2))
+    for gname, level, d in (('utm_ll', 1, 1), ('frac_ul', 1, 1), ('frac_ll', 2, -1)) + ((('multi0_ul', 0, 1), ('utm_ul', 2, 1), ('utm_ul', 2, -1)) if tier == 'thorough' else ()):
+        specs.append(spec(MOD, 'RescaledTile', 'rescaled-tile-sources-aligned/%s/L%d-from-L%d' % (gname, level, level + d), cfg=dict(grid=gname, level=level, dir=d), cost=20))
+    specs.append(spec(MOD, 'RescaledTile', 'twin/RescaledTile', kind='witness', cfg=dict(grid='utm_ll', level=1, dir=1)))
+    specs.append(spec(MOD, 'RescaledTile', 'canary/missing source tiles dropped from the mosaic list', kind='canary', cfg=dict(grid='utm_ll', level=1, dir=1), cost=10,
+                      patches={'mapproxy.cache.tile': [("            tile_sources.append(t.source if t.source is not RESCALE_TILE_MISSING else None)",
+                                                        "            if t.source is not RESCALE_TILE_MISSING:\n                tile_sources.append(t.source)")]}))
     specs.append(spec(MOD, 'AxisOrder', 'twin/AxisOrder', kind='witness', cfg=dict(srs='EPSG:4326')))
     specs.append(spec(MOD, 'AxisOrder', 'canary/1.3.0 map request sent in x/y order', kind='canary', cfg=dict(srs='EPSG:4326'),
                       patches={'mapproxy.request.wms': [["        params = WMSMapRequest.adapt_params_to_version(self)\n        params.switch_bbox()\n        if 'srs' in params:",
